@@ -10,6 +10,21 @@ pub fn parse_keyword<S: TexlangState>(
     input: &mut vm::ExpandedStream<S>,
     keyword: &str,
 ) -> txl::Result<bool> {
+    // TeX.2021.407: blanks in front of a keyword are passed over,
+    // and they stay consumed when the keyword is not there.
+    while let Some(token) = input.next()? {
+        if !matches!(token.value(), token::Value::Space(_)) {
+            input.back(token);
+            break;
+        }
+    }
+    parse_keyword_rest(input, keyword)
+}
+
+fn parse_keyword_rest<S: TexlangState>(
+    input: &mut vm::ExpandedStream<S>,
+    keyword: &str,
+) -> txl::Result<bool> {
     let Some(c) = keyword.chars().next() else {
         // keyword is empty
         return Ok(true);
@@ -25,7 +40,7 @@ pub fn parse_keyword<S: TexlangState>(
         return Ok(false);
     }
     // this character matched; now try to match the result of keyword
-    let result = parse_keyword(input, &keyword[c.len_utf8()..]);
+    let result = parse_keyword_rest(input, &keyword[c.len_utf8()..]);
     if let Ok(false) = result {
         // some later character did not match, reverse consuming the token.
         input.back(token);
